@@ -1,5 +1,6 @@
 import Acra.Drv.FTI
+import Acra.Drv.Float
 namespace Acra.Drv
 def allCodecs : List Codec := ftiCodecs
-def allFuncs : List Func := ftiFuncs
+def allFuncs : List Func := ftiFuncs ++ floatFuncs
 end Acra.Drv
